@@ -22,8 +22,11 @@ Seeds3 == IF Quick THEN {<<a, b, c>> \in (-3..4) \X (-3..4) \X (-3..4) : (a + 2 
 Trans3 == {<<1, -2, 3>>, <<0, 0, 0>>, <<3, -5, 7>>, <<-40, 24, 12>>}
 Calls ==
          \* j = 1: the same translation times a huge power of two (2^121 in f32, 2^1017 in f64): any finite translation is in the domain
-         [kind : {"srt3"}, seed : Seeds3, sg : Signs3, mag : Mags3, t : Trans3, j : {0, 1}]
-    \cup [kind : {"srt2"}, seed : {<<0, 0, 0>>}, sg : {<<a, b, 0>> : a, b \in {0, 1}}, mag : Mags3, t : {<<5, -7, 0>>, <<0, 0, 0>>, <<-48, 96, 0>>}, j : -3..4]
+         [kind : {"srt3"}, seed : Seeds3, sg : Signs3, mag : Mags3, t : Trans3, j : {0, 1}, dk : {0}]
+    \cup [kind : {"srt2"}, seed : {<<0, 0, 0>>}, sg : {<<a, b, 0>> : a, b \in {0, 1}}, mag : Mags3, t : {<<5, -7, 0>>, <<0, 0, 0>>, <<-48, 96, 0>>}, j : -3..4, dk : {0}]
+         \* dk > 0: the angle j pi/4 + 2^-dk, just off the grid (the decomposed angle within 1e-5 .. 1e-8 of 0, +-pi/2 or pi, where an
+         \* arccosine-based angle would be ill-conditioned): the harness checks these by the round trip alone
+    \cup [kind : {"srt2"}, seed : {<<0, 0, 0>>}, sg : {<<a, b, 0>> : a, b \in {0, 1}}, mag : Mags3, t : {<<5, -7, 0>>}, j : -3..4, dk : {17, 26}]
 
 Eval(c) ==
     IF c.kind = "srt3" THEN
@@ -46,7 +49,8 @@ Init == ph = "call" /\ call \in Calls /\ res = <<>>
 Next == ph = "call" /\ ph' = "ret" /\ res' = Eval(call) /\ UNCHANGED call
 Spec == Init /\ [][Next]_vars
 Emit == ph = "ret" => PrintT(<<"CASE", ToJson([fam |-> "srt", kind |-> call.kind, seed |-> call.seed, j |-> call.j,
-                                                huge |-> IF call.kind = "srt3" THEN call.j ELSE 0, exp |-> res])>>)
+                                                huge |-> IF call.kind = "srt3" THEN call.j ELSE 0,
+                                                dk |-> IF call.kind = "srt2" THEN call.dk ELSE 0, exp |-> res])>>)
 
 \* the composed linear part has determinant product(s) and orthogonal columns of the given lengths
 SrtTheorems ==
